@@ -5,9 +5,32 @@ substitution for routing updates and service advertisements) and gives the sessi
 protocol phases; TLC enumerates every class sequence up to the bound, checks that none reaches 'crashed', and
 exports the sequences. cmd/vh wire concretises every class into bytes (seeded instances) and plays the
 sequences against a real node in a child process over TCP, UDP, websocket and an embedded backend; after each
-sequence the process must be alive and a well-behaved peer's ping must be answered."""
+sequence the process must be alive and the well-behaved peers' pings must be answered. A last phase lets several
+established sessions send well-formed traffic about the same service / origin at the same time. The child runs a
+race-detector build, so an unsynchronised access to a shared map (a crash under the right timing: "fatal error:
+concurrent map read and map write") is seen even when the two accesses did not collide in this run."""
+import glob
 import os
+import re
 import vlib
+
+
+def map_races(logprefix):
+    """(violations, other) from the race detector's reports: a report with a runtime map access on either side is an
+    access pair that the Go runtime turns into a fatal error when the two overlap."""
+    viol, other = {}, 0
+    for f in glob.glob(logprefix + ".*"):
+        txt = open(f, errors="replace").read()
+        for block in txt.split("==================")[1:]:
+            if "DATA RACE" not in block:
+                continue
+            if "runtime.map" not in block:
+                other += 1
+                continue
+            fns = re.findall(r"pkg/(?:netceptor|backends|utils|framer)\.(?:\(\*?\w+\)\.)?(\w+)\(\)", block)
+            where = fns[0] if fns else "unknown"
+            viol.setdefault(where, block.strip()[:1800])
+    return viol, other
 
 
 def run(tier, seed, replay=None):
@@ -19,24 +42,38 @@ def run(tier, seed, replay=None):
     vectors = os.path.join(r.dir, "vectors.ndjson")
     nvec = sum(1 for _ in open(vectors))
     vh = vlib.build_harness()
-    limit, inst = (250, 1) if tier == "quick" else (6000, 2)
-    res = vlib.harness_json(vh, ["wire", "-vectors", vectors, "-seed", str(seed), "-limit", str(limit), "-instances", str(inst)],
+    vh_race = vlib.build_harness(race=True)
+    racelog = os.path.join(wd, "race")
+    if vh_race:
+        os.environ["VERIF_WIRE_CHILD_BIN"] = vh_race
+        os.environ["VERIF_WIRE_RACELOG"] = racelog
+    limit, inst = (250, 1) if tier == "quick" else (3000, 2)
+    res = vlib.harness_json(vh, ["wire", "-vectors", vectors, "-seed", str(seed), "-limit", str(limit), "-instances", str(inst),
+                                 "-storm", "3s" if tier == "quick" else "20s"],
                             wd, timeout=5400, name="wire")
     if res.get("inconclusive"):
         raise vlib.Inconclusive("wire harness: " + "; ".join(res["inconclusive"][:3]))
     for viol in res["violations"]:
         v.violation(viol["sig"], viol["what"], viol["replay"])
+    races, other_races = map_races(racelog) if vh_race else ({}, 0)
+    for where, block in races.items():
+        v.violation("C07:concurrent-map-access:" + where,
+                    "two session goroutines accessed a shared map without synchronisation while peers were sending (race detector report); when the "
+                    "two accesses overlap the Go runtime ends the process with 'fatal error: concurrent map read and map write'",
+                    {"race_report": block})
     cov = {
         "evaluations": res["evaluations"], "distinct_nontrivial": res["distinct"],
         "rule": "TLC enumerates all class sequences of length <= 2 over %d classes x {pre-handshake, established} (%d vectors); every "
                 "length-1 vector and a seeded sample of %d longer ones are concretised (%d seeded byte instance(s) each) and sent on a "
                 "fresh session over each of tcp, udp, ws and an embedded backend to a real node in a child process; "
-                "distinct = distinct (transport, start phase, class sequence)" % (176, nvec, limit, inst),
+                "distinct = distinct (transport, start phase, class sequence)" % (len(set(c for l in open(vectors) for c in __import__("json").loads(l)["classes"])), nvec, limit, inst),
         "samples": res["samples"][:3], "exhaustive": False,
         "states": r.distinct, "transitions": r.generated, "vectors_enumerated": nvec,
+        "race_detector_child": bool(vh_race), "other_data_race_reports": other_races,
         "counters": res["counters"], "spec_closure_mismatch_notes": res.get("notes") or [], "witnesses": wit,
     }
     return v.finish("exploration", cov, assumptions=[
         "class-exhaustive, byte-sampled: bytes inside a class are drawn from a seeded generator",
-        "the oracle is process liveness plus a ping answered for a second, well-behaved TCP peer within 10 s (re-confirmed once, 20 s)",
+        "the oracle is process liveness plus, for two well-behaved peers (TCP and UDP), their periodic routing update taken and their ping answered within 10 s (re-confirmed once, 20 s); runaway recursion is made to crash at a 32 MB stack instead of 1 GB",
+        "a race-detector report with a map access on either side counts as a crash (the runtime's own fatal error needs the two accesses to overlap); other reports are only counted",
     ])
